@@ -24,7 +24,7 @@ run_seed() {
 run_ben() {
   d=$1; id=$(basename $d)
   props=$(python3 -c "import json;print(' '.join(json.load(open('$d/meta.json'))['checks'].keys()))")
-  tools/bentest.sh $d $id $props > work/rerun-ben-$id.log 2>&1
+  tools/bentest.sh /verif/$d $id $props > work/rerun-ben-$id.log 2>&1
   python3 -c "import json;m=json.load(open('$d/meta.json'));print('$id','FALSE-ALARM' if m['false_alarm'] else ('tool-failure' if m['tool_failure'] else 'quiet'))"
 }
 export -f run_seed run_ben
